@@ -199,7 +199,23 @@ def run(ctx, res):
         s.run(env=lib.coroutine_param_env(body) if body.kind == 'coroutine' else None)
         res.paths += len(s.paths)
         worst = {}
+        disp = None
+        if path.replace('::{closure#0}', '') == common.HANDLE_INCOMING:
+            try:
+                disp = common.Dispatcher(ctx)
+            except Lost:
+                disp = None
         for p in s.paths:
+            # which arm of the dispatcher this path runs through (a reply built per arm may be sent by one shared statement)
+            arm_p = ''
+            if path.replace('::{closure#0}', '') == common.HANDLE_INCOMING:
+                arm_p = '?:'
+                if disp is not None:
+                    pb = set(p.blocks)
+                    for v in common.REQUEST_VARIANTS + ('Response', 'Error'):
+                        if disp.arms[v] in pb:
+                            arm_p = v + ':'
+                            break
             for e in p.effects:
                 if e[0] != 'call' or e[1] not in ('socket::Socket::send', 'socket::Socket::send_request'):
                     continue
@@ -220,21 +236,15 @@ def run(ctx, res):
                         ms = [q.ret for q in cs.complete_paths()]
                         m = ms[0] if len(ms) == 1 and ms[0][0] == 'agg' else None
                 if m is None:
-                    worst[(e[3], 'unresolved')] = (INF, '?', {'message': fmt(e[2][1])[:100]})
+                    worst[(e[3], 'unresolved', arm_p)] = (INF, '?', {'message': fmt(e[2][1])[:100]})
                     continue
                 size, kind, detail = sz.message_size(m)
-                k = (e[3], kind)
+                k = (e[3], kind, arm_p)
                 if k not in worst or size > worst[k][0]:
                     worst[k] = (size, kind, detail)
-        for (blk, kind), (size, _, detail) in sorted(worst.items(), key=lambda x: str(x[0])):
+        for (blk, kind, arm), (size, _, detail) in sorted(worst.items(), key=lambda x: str(x[0])):
             site = body.term(blk)['sp']
             anchor = path.replace('::{closure#0}', '')
-            arm = ''
-            if anchor == common.HANDLE_INCOMING:
-                try:
-                    arm = (common.Dispatcher(ctx).arm_of_block(blk) or '?') + ':'
-                except Lost:
-                    arm = '?:'
             if size == INF:
                 unb = [k2 for k2, v in detail.items() if v == INF] or ['?']
                 for f in unb:
